@@ -102,7 +102,8 @@ def chkThrift (oracle : Bytes → Bool) (b : Bytes) : Res :=
 def chkTars (oracle : Bytes → Bool) (b : Bytes) : Res :=
   if b.length < tars_lenFieldSize then Res.needMore else         -- PACKAGE_LESS
   rdBE b (0, tars_lenFieldSize) fun n =>
-  if n < tars_minPackageLength ∨ n > tars_maxPackageLength then Res.needMore else   -- PACKAGE_ERROR ⇒ (nil, nil)
+  if n < tars_minPackageLength ∨ n > tars_maxPackageLength then   -- PACKAGE_ERROR ⇒ decode error ([c08l9]; regenerated flag)
+    (if tars_packageErrorFails then Res.error 0 else Res.needMore) else
   if b.length < n then Res.needMore else                         -- PACKAGE_LESS
   slice b tars_MessageSizeLen b.length fun _ =>                  -- getStreamType: pkg[4:]
   alloc n <|                                                     -- rawData := make([]byte, frameLen)
